@@ -1,58 +1,113 @@
 --------------------------------- MODULE Conc -------------------------------
-(* Concurrent use of the library's shared buffer pools (C13): every        *)
-(* operation Gets a pooled buffer, fills it with its own content, copies   *)
-(* the content out and Puts the buffer back.  Get and Put are atomic; the  *)
-(* steps of different goroutines interleave arbitrarily.  PutEarly = TRUE  *)
-(* releases the buffer before the copy-out (negative configuration).       *)
+(* Concurrent use of the library's shared state (C13), and the same state   *)
+(* seen by one caller over time (history independence: C05, C08, C12).      *)
+(*                                                                         *)
+(* Every operation Gets a pooled scratch buffer, consults a lookup table,   *)
+(* writes its own content after whatever the buffer holds, copies the       *)
+(* content out and Puts the buffer back (reset).  An operation may instead  *)
+(* fail half-way (a refused input) and return the buffer on its error path. *)
+(* Get, Put and the table steps are atomic; the steps of different          *)
+(* goroutines interleave arbitrarily.                                       *)
+(*                                                                         *)
+(* Switches (negative configurations set one of them the wrong way):        *)
+(*   PutEarly      the buffer is released before the copy-out               *)
+(*   ResetOnError  the error path resets the buffer like the success path   *)
+(*   LazyInit      "static": the table exists before any call (a literal);  *)
+(*                 "once":   built on first use under a once-guard;         *)
+(*                 "racy":   built on first use without synchronisation     *)
 EXTENDS Integers, Sequences, FiniteSets, TLC
 
-CONSTANTS G, Ops, PutEarly     \* goroutines, operations per goroutine
+CONSTANTS G, Ops, PutEarly, ResetOnError, LazyInit, MayFail
 
-VARIABLES pool, buf, nextBuf, gs
-cvars == <<pool, buf, nextBuf, gs>>
+VARIABLES pool, buf, nextBuf, gs, table
+cvars == <<pool, buf, nextBuf, gs, table>>
 
 \* the content operation k of goroutine g wants to produce
 Want(g, k) == g * 100 + k
+Failed == 0        \* what a refused operation returns (an error, no content)
+Garbage == -1
 
 Init ==
-  /\ pool = {} /\ buf = [b \in {} |-> 0] /\ nextBuf = 1
-  /\ gs = [g \in G |-> [pc |-> "get", k |-> 1, b |-> 0, res |-> <<>>]]
+  /\ pool = {} /\ buf = [b \in {} |-> <<>>] /\ nextBuf = 1
+  /\ gs = [g \in G |-> [pc |-> "get", k |-> 1, b |-> 0, res |-> <<>>, blind |-> FALSE, copied |-> FALSE]]
+  /\ table = IF LazyInit = "static" THEN "ready" ELSE "nil"
 
-Get(g) ==
+\* sync.Pool semantics: Get hands out some pooled buffer, or a new one at any time
+GetBuf(g, b) ==
   /\ gs[g].pc = "get" /\ gs[g].k <= Ops
-  /\ IF pool = {}
-       THEN /\ buf' = buf @@ (nextBuf :> 0) /\ nextBuf' = nextBuf + 1 /\ pool' = pool
-            /\ gs' = [gs EXCEPT ![g].pc = "write", ![g].b = nextBuf]
-       ELSE \E b \in pool :
-            /\ pool' = pool \ {b} /\ UNCHANGED <<buf, nextBuf>>
-            /\ gs' = [gs EXCEPT ![g].pc = "write", ![g].b = b]
+  /\ UNCHANGED table
+  /\ IF b = nextBuf
+       THEN /\ buf' = buf @@ (nextBuf :> <<>>) /\ nextBuf' = nextBuf + 1 /\ pool' = pool
+       ELSE /\ b \in pool /\ pool' = pool \ {b} /\ UNCHANGED <<buf, nextBuf>>
+  /\ gs' = [gs EXCEPT ![g].pc = "lookup", ![g].b = b]
+Get(g) == \E b \in pool \cup {nextBuf} : GetBuf(g, b)
 
-Write(g) ==
-  /\ gs[g].pc = "write"
-  /\ buf' = [buf EXCEPT ![gs[g].b] = Want(g, gs[g].k)]
-  /\ gs' = [gs EXCEPT ![g].pc = IF PutEarly THEN "put" ELSE "copy"]
-  /\ UNCHANGED <<pool, nextBuf>>
+\* first use of the lookup table
+Lookup(g) ==
+  /\ gs[g].pc = "lookup"
+  /\ UNCHANGED <<pool, buf, nextBuf>>
+  /\ CASE table = "ready" -> /\ gs' = [gs EXCEPT ![g].pc = "write"] /\ UNCHANGED table
+       [] table = "nil"   -> /\ table' = "partial" /\ gs' = [gs EXCEPT ![g].pc = "build"]
+       [] table = "partial" ->
+            /\ LazyInit = "racy"      \* under a once-guard the reader waits (the step is not enabled)
+            /\ gs' = [gs EXCEPT ![g].pc = "write", ![g].blind = TRUE]    \* reads the half-built table
+            /\ UNCHANGED table
 
-Copy(g) ==
-  /\ gs[g].pc = "copy"
-  /\ gs' = [gs EXCEPT ![g].res = Append(@, buf[gs[g].b]),
-                      ![g].pc = IF PutEarly THEN "get" ELSE "put",
-                      ![g].k = IF PutEarly THEN @ + 1 ELSE @]
+Build(g) ==
+  /\ gs[g].pc = "build"
+  /\ table' = "ready" /\ gs' = [gs EXCEPT ![g].pc = "write"]
   /\ UNCHANGED <<pool, buf, nextBuf>>
 
-Put(g) ==
-  /\ gs[g].pc = "put"
-  /\ pool' = pool \cup {gs[g].b}
-  /\ gs' = [gs EXCEPT ![g].pc = IF PutEarly THEN "copy" ELSE "get",
-                      ![g].k = IF PutEarly THEN @ ELSE @ + 1]
-  /\ UNCHANGED <<buf, nextBuf>>
+\* bytes.Buffer semantics: the content goes after whatever the buffer already holds
+Write(g) ==
+  /\ gs[g].pc = "write"
+  /\ buf' = [buf EXCEPT ![gs[g].b] = Append(@, IF gs[g].blind THEN Garbage ELSE Want(g, gs[g].k))]
+  /\ gs' = [gs EXCEPT ![g].pc = "full", ![g].blind = FALSE]
+  /\ UNCHANGED <<pool, nextBuf, table>>
 
-Next == \E g \in G : Get(g) \/ Write(g) \/ Copy(g) \/ Put(g)
+\* a refused input: part of the content has been written, the operation returns an error and the buffer
+Fail(g) ==
+  /\ MayFail /\ gs[g].pc \in {"write", "full"} /\ ~gs[g].copied /\ gs[g].k % 2 = 1
+  /\ buf' = [buf EXCEPT ![gs[g].b] = IF ResetOnError THEN <<>> ELSE Append(@, Garbage)]
+  /\ pool' = pool \cup {gs[g].b}
+  /\ gs' = [gs EXCEPT ![g].res = Append(@, Failed), ![g].pc = "get", ![g].k = @ + 1, ![g].blind = FALSE]
+  /\ UNCHANGED <<nextBuf, table>>
+
+Result(g) == IF buf[gs[g].b] = <<Want(g, gs[g].k)>> THEN Want(g, gs[g].k) ELSE Garbage
+
+\* the content is copied out while the buffer is held
+Copy(g) ==
+  /\ gs[g].pc = "full" /\ ~gs[g].copied
+  /\ gs' = [gs EXCEPT ![g].res = Append(@, Result(g)), ![g].copied = TRUE]
+  /\ UNCHANGED <<pool, buf, nextBuf, table>>
+
+\* Release: the buffer is reset and goes back to the pool
+Put(g) ==
+  /\ gs[g].pc = "full" /\ (gs[g].copied \/ PutEarly)
+  /\ pool' = pool \cup {gs[g].b}
+  /\ buf' = IF gs[g].copied THEN [buf EXCEPT ![gs[g].b] = <<>>] ELSE buf
+  /\ gs' = IF gs[g].copied THEN [gs EXCEPT ![g].pc = "get", ![g].k = @ + 1, ![g].copied = FALSE]
+                            ELSE [gs EXCEPT ![g].pc = "released"]
+  /\ UNCHANGED <<nextBuf, table>>
+
+\* (PutEarly only) the copy-out happens after the buffer has been given back
+CopyLate(g) ==
+  /\ gs[g].pc = "released"
+  /\ gs' = [gs EXCEPT ![g].res = Append(@, Result(g)), ![g].pc = "get", ![g].k = @ + 1]
+  /\ UNCHANGED <<pool, buf, nextBuf, table>>
+
+Next == \E g \in G : Get(g) \/ Lookup(g) \/ Build(g) \/ Write(g) \/ Fail(g) \/ Copy(g) \/ Put(g) \/ CopyLate(g)
 Spec == Init /\ [][Next]_cvars
 
-\* every call returns exactly what it returns when run alone
-Independent == \A g \in G : \A i \in 1..Len(gs[g].res) : gs[g].res[i] = Want(g, i)
+\* every call returns exactly what it returns when run alone, whatever ran before it
+Independent == \A g \in G : \A i \in 1..Len(gs[g].res) : gs[g].res[i] \in {Want(g, i), Failed}
 \* a pooled buffer is never held by two goroutines at once
-Exclusive == \A g1, g2 \in G : (g1 # g2 /\ gs[g1].pc \in {"write", "copy"} /\ gs[g2].pc \in {"write", "copy"}
-                                  /\ ~PutEarly) => gs[g1].b # gs[g2].b
+Holds(g) == gs[g].pc \in {"lookup", "build", "write", "full"}
+Exclusive == \A g1, g2 \in G : (g1 # g2 /\ Holds(g1) /\ Holds(g2)) => gs[g1].b # gs[g2].b
+\* ... and a held buffer is not in the pool
+HeldNotPooled == \A g \in G : Holds(g) => gs[g].b \notin pool
+\* a buffer in the pool is empty (what the next Get relies on)
+PoolClean == \A b \in pool : buf[b] = <<>>
+\* nobody reads the table while it is being built
+NoBlindRead == \A g \in G : ~gs[g].blind
 =============================================================================
